@@ -286,7 +286,7 @@ theorem no_recipient_in_two_envelopes (cfg : Cfg) (ps : List Pol) (e : Policy.En
     (slotsOf (runPolicies cfg ps e)).Nodup :=
   (C16.recipients_conserved cfg ps e).nodup_iff.mpr hn
 
-variable {fb : Bool} {pre : List (Nat × Nat)} {rc : Nat → List Rcpt} {nn0 : Nat → Bool}
+variable {fb : Bool} {pre : List (Nat × Nat)} {rc : Nat → List Rcpt} {nn0 : Nat → Bool} {att : Nat → Nat}
 
 /-- **Acknowledged means in custody, recipient by recipient** (the property, over the composition): for every policy chain,
     envelope and vector of write outcomes (one per envelope the policies produced) — if the SMTP edge answers 2xx or the HTTP edge
@@ -326,7 +326,7 @@ theorem acknowledged_recipient_never_lost (cfg : Cfg) (ps : List Pol) (e : Polic
     (hw : WriteErrCodes (ws.map W.toWrite))
     (hack : smtpCode (call cfg ps e ws now nn relay) / 100 = 2 ∨ wsgiCode (call cfg ps e ws now nn relay) / 100 = 2)
     (hpre : (pre.map (·.1)).Nodup) (hrc : ∀ id ∈ pre.map (·.1), (rc id).Nodup)
-    {q : State} {ls : List Label} (hr : ReachT fb (start pre rc nn0) ls q)
+    {q : State} {ls : List Label} (hr : ReachT fb (startAt pre rc nn0 att) ls q)
     (hdone : ∀ l ∈ writeLabels now nn (runPolicies cfg ps e) ws, l ∈ ls)
     (x : Nat) (hx : x ∈ slots e) :
     ∃ id, W.ok id ∈ ws ∧
